@@ -86,7 +86,7 @@ theorem step_WInv (oc : Bool) (b : Buf) (op : Op) (h : b.WInv) : (step oc b op).
           have hb := dfOf_bounds f _ s e n hf
           exact consume_WInv b n h (by rw [← hl]; exact hb.2.2.2)
   | tryParse ops sm =>
-    rcases step_tryParse_cases oc b ops sm h with ⟨_, _, k, hr⟩ | ⟨_, _, hr⟩
+    rcases step_tryParse_cases oc b ops sm h with ⟨_, _, k, hr⟩ | ⟨_, _, hr, _⟩
     · exact Reads.WInv h hr
     · exact Reads.WInv h hr
 
